@@ -17,6 +17,7 @@ package main
 import (
 	"bytes"
 	"encoding/binary"
+	"encoding/json"
 	"fmt"
 	"os"
 	"path/filepath"
@@ -27,6 +28,7 @@ import (
 	"strconv"
 	"strings"
 	"time"
+	"unsafe"
 
 	"github.com/tonkeeper/tongo/boc"
 	"github.com/tonkeeper/tongo/code"
@@ -45,6 +47,7 @@ func init() {
 	execs["c08.tlb"] = execC08Tlb
 	execs["c08.declen"] = execC08Declen
 	execs["c08.answer"] = execC08Answer
+	execs["c08.answer2"] = execC08Answer2
 	execs["c08.packet"] = execC08Packet
 	execs["c08.vmstack"] = execC08Vmstack
 	execs["c08.methods"] = execC08Methods
@@ -334,8 +337,14 @@ type c08Alt struct {
 
 func (d *c08Desc) sx() sx.V {
 	switch d.K {
-	case "bool", "unary", "any", "cell", "addr":
+	case "bool", "unary", "any", "cell", "addr", "grams", "snake", "bytes", "ftext", "vmstack", "vmvalue", "vmtuple", "cslice", "fail", "rawcell", "text":
 		return sx.A(d.K)
+	case "bintree":
+		return sx.L(sx.A("bintree"), sx.N(d.Val), d.Sub[0].sx())
+	case "hm":
+		return sx.L(sx.A("hm"), sx.Nat(d.W), sx.N(d.Val), d.Sub[0].sx())
+	case "hmaug":
+		return sx.L(sx.A("hmaug"), sx.Nat(d.W), sx.N(d.Val), d.Sub[0].sx(), d.Sub[1].sx())
 	case "u", "i", "bu", "bi", "bits", "var":
 		return sx.L(sx.A(d.K), sx.Nat(d.W))
 	case "magic":
@@ -370,6 +379,73 @@ func (d *c08Desc) hasAny() bool {
 		}
 	}
 	return false
+}
+
+// hasLoop: the decoder follows the data (dictionary, stack list, tuple, snake)
+func (d *c08Desc) hasLoop() bool {
+	switch d.K {
+	case "hm", "hmaug", "vmstack", "vmvalue", "vmtuple", "snake", "bytes", "cslice", "text", "bintree":
+		return true
+	}
+	for _, s := range d.Sub {
+		if s.hasLoop() {
+			return true
+		}
+	}
+	for _, a := range d.Alts {
+		if a.T.hasLoop() {
+			return true
+		}
+	}
+	return false
+}
+
+func c08KeyBits(k reflect.Type) (int, bool) {
+	fs, ok := reflect.New(k).Elem().Interface().(interface{ FixedSize() int })
+	if !ok {
+		return 0, false
+	}
+	n := fs.FixedSize()
+	dk := c08Derive(k, "")
+	if dk == nil || dk.W != n {
+		return 0, false
+	}
+	switch dk.K {
+	case "u", "i", "bu", "bi", "bits":
+		return n, true
+	}
+	return 0, false
+}
+
+// Hashmap[K,V] / HashmapAug[K,V,E]
+func c08DeriveMap(t reflect.Type, aug bool) *c08Desc {
+	kf, ok1 := t.FieldByName("keys")
+	vf, ok2 := t.FieldByName("values")
+	if !ok1 || !ok2 {
+		return nil
+	}
+	k, v := kf.Type.Elem(), vf.Type.Elem()
+	n, ok := c08KeyBits(k)
+	dv := c08Derive(v, "")
+	if !ok || dv == nil {
+		return nil
+	}
+	if !aug {
+		return &c08Desc{K: "hm", W: n, Val: uint64(k.Size() + v.Size()), Sub: []*c08Desc{dv}}
+	}
+	ef, ok := t.FieldByName("extra")
+	if !ok {
+		return nil
+	}
+	df, ok := ef.Type.FieldByName("Data")
+	if !ok {
+		return nil
+	}
+	de := c08Derive(df.Type, "")
+	if de == nil {
+		return nil
+	}
+	return &c08Desc{K: "hmaug", W: n, Val: uint64(k.Size() + v.Size() + ef.Type.Size()), Sub: []*c08Desc{dv, de}}
 }
 
 var (
@@ -452,6 +528,69 @@ func c08Derive(t reflect.Type, tag string) *c08Desc {
 			return &c08Desc{K: "any"}
 		case n == "MsgAddress":
 			return &c08Desc{K: "addr"}
+		case n == "AccountStatus":
+			return &c08Desc{K: "u", W: 2}
+		case n == "AccStatusChange": // acst_unchanged$0 acst_frozen$10 acst_deleted$11
+			e := &c08Desc{K: "struct"}
+			return &c08Desc{K: "sum", Alts: []c08Alt{{1, 0, e}, {2, 2, e}, {2, 3, e}}}
+		case n == "ComputeSkipReason": // $00 $01 $10 $110; $111 is an error
+			e := &c08Desc{K: "struct"}
+			return &c08Desc{K: "sum", Alts: []c08Alt{{2, 0, e}, {2, 1, e}, {2, 2, e}, {3, 6, e}}}
+		case n == "Grams":
+			return &c08Desc{K: "grams"}
+		case n == "SnakeData":
+			return &c08Desc{K: "snake"}
+		case n == "Bytes":
+			return &c08Desc{K: "bytes"}
+		case n == "Text":
+			return &c08Desc{K: "text"}
+		case strings.HasPrefix(n, "BinTree["):
+			vf, ok := t.FieldByName("Values")
+			if !ok {
+				return nil
+			}
+			dv := c08Derive(vf.Type.Elem(), "")
+			if dv == nil {
+				return nil
+			}
+			return &c08Desc{K: "bintree", Val: uint64(vf.Type.Elem().Size()), Sub: []*c08Desc{dv}}
+		case n == "FixedLengthText":
+			return &c08Desc{K: "ftext"}
+		case n == "VmStack":
+			return &c08Desc{K: "vmstack"}
+		case n == "VmStackValue":
+			return &c08Desc{K: "vmvalue"}
+		case n == "VmStkTuple":
+			return &c08Desc{K: "vmtuple"}
+		case n == "VmCellSlice":
+			return &c08Desc{K: "cslice"}
+		case n == "VmCont":
+			return &c08Desc{K: "fail"}
+		case strings.HasPrefix(n, "HashmapAugE["):
+			mf, ok1 := t.FieldByName("m")
+			ef, ok2 := t.FieldByName("extra")
+			if !ok1 || !ok2 {
+				return nil
+			}
+			dm, de := c08DeriveMap(mf.Type, true), c08Derive(ef.Type, "")
+			if dm == nil || de == nil {
+				return nil
+			}
+			return &c08Desc{K: "struct", Sub: []*c08Desc{{K: "maybe", Sub: []*c08Desc{{K: "ref", Sub: []*c08Desc{dm}}}}, de}}
+		case strings.HasPrefix(n, "HashmapAug["):
+			return c08DeriveMap(t, true)
+		case strings.HasPrefix(n, "HashmapE["):
+			mf, ok := t.FieldByName("m")
+			if !ok {
+				return nil
+			}
+			dm := c08DeriveMap(mf.Type, false)
+			if dm == nil {
+				return nil
+			}
+			return &c08Desc{K: "maybe", Sub: []*c08Desc{{K: "ref", Sub: []*c08Desc{dm}}}}
+		case strings.HasPrefix(n, "Hashmap["):
+			return c08DeriveMap(t, false)
 		case strings.HasPrefix(n, "Maybe["), strings.HasPrefix(n, "EitherRef["), strings.HasPrefix(n, "Ref["):
 			f, _ := t.FieldByName("Value")
 			in := c08Derive(f.Type, "")
@@ -494,7 +633,7 @@ func c08Derive(t reflect.Type, tag string) *c08Desc {
 		return c08Derive(t.Elem(), "")
 	case reflect.Struct:
 		if t == c08CellType {
-			return nil
+			return &c08Desc{K: "rawcell"} // decodeCell: the whole cell, nothing consumed, any kind
 		}
 		if _, ok := t.FieldByName("SumType"); ok {
 			d := &c08Desc{K: "sum"}
@@ -598,7 +737,7 @@ var c08TlbTypes = []reflect.Type{
 	reflect.TypeOf(tlb.HashmapAugE[tlb.Bits256, tlb.Uint8, tlb.Uint8]{}), reflect.TypeOf(tlb.McStateExtra{}),
 	reflect.TypeOf(tlb.Grams(0)), reflect.TypeOf(tlb.VarUInteger32{}), reflect.TypeOf(tlb.SnakeData{}), reflect.TypeOf(tlb.Text("")),
 	reflect.TypeOf(tlb.Bytes{}), reflect.TypeOf(tlb.FixedLengthText("")), reflect.TypeOf(tlb.VmCont{}), reflect.TypeOf(tlb.VmStkTuple{}),
-	reflect.TypeOf(tlb.VarUInteger16{}),
+	reflect.TypeOf(tlb.VarUInteger16{}), reflect.TypeOf(tlb.VmCellSlice{}),
 }
 
 // a cell tree as data
@@ -754,6 +893,91 @@ func c08GenValid(r *prng.R, d *c08Desc, t *c08Tree, depth int) {
 		t.Bits = append(t.Bits, c08RandBits(r, r.Intn(20))...)
 	case "cell":
 		t.Refs = append(t.Refs, c08RandTree(r, 1))
+	case "grams":
+		n := r.Pick([]int{0, 1, 2, 8, 8, 3})
+		t.Bits = append(t.Bits, c08BitsOf(uint64(n), 4)...)
+		t.Bits = append(t.Bits, c08RandBits(r, 8*n)...)
+	case "ftext":
+		n := r.Intn(12)
+		t.Bits = append(t.Bits, c08BitsOf(uint64(n), 8)...)
+		t.Bits = append(t.Bits, c08RandBits(r, 8*n)...)
+	case "snake", "bytes":
+		cur := t
+		for k := r.Intn(4); ; k-- {
+			room := 1023 - len(cur.Bits)
+			if room > 64 {
+				room = 64
+			}
+			cur.Bits = append(cur.Bits, c08RandBits(r, 8*r.Intn(room/8+1))...)
+			if k <= 0 {
+				break
+			}
+			nx := &c08Tree{}
+			cur.Refs = append(cur.Refs, nx)
+			cur = nx
+		}
+	case "text":
+		// mostly valid UTF-8 (1..4 byte forms), sometimes damaged, split over a snake chain
+		var data []byte
+		for i := r.Intn(12); i > 0; i-- {
+			data = append(data, []byte(string(rune(r.Pick([]int{0x41, 0x7f, 0x80, 0x7ff, 0x800, 0xd7ff, 0xe000, 0xffff, 0x10000, 0x10ffff, 0x20ac, 0x1f600}))))...)
+		}
+		if r.Chance(30) && len(data) > 0 {
+			data[r.Intn(len(data))] = byte(r.Pick([]int{0x80, 0xbf, 0xc0, 0xc1, 0xe0, 0xed, 0xf4, 0xf5, 0xff, 0xa0, 0x90}))
+		}
+		if r.Chance(10) {
+			data = append(data, 0xed, 0xa0, 0x80) // a surrogate
+		}
+		cur := t
+		for len(data) > 0 {
+			n := 1 + r.Intn(len(data))
+			for _, by := range data[:n] {
+				cur.Bits = append(cur.Bits, c08BitsOf(uint64(by), 8)...)
+			}
+			data = data[n:]
+			if len(data) > 0 {
+				nx := &c08Tree{}
+				cur.Refs = append(cur.Refs, nx)
+				cur = nx
+			}
+		}
+	case "bintree":
+		var gen func(t *c08Tree, dp int)
+		gen = func(t *c08Tree, dp int) {
+			if dp < 3 && r.Chance(45) {
+				t.Bits = append(t.Bits, true)
+				for i := 0; i < 2; i++ {
+					ch := &c08Tree{}
+					gen(ch, dp+1)
+					t.Refs = append(t.Refs, ch)
+				}
+				return
+			}
+			t.Bits = append(t.Bits, false)
+			c08GenValid(r, d.Sub[0], t, depth+1)
+		}
+		gen(t, 0)
+	case "rawcell", "fail":
+	case "cslice":
+		c08GenCellSlice(r, t)
+	case "vmvalue":
+		c08GenVmValue(r, t, depth)
+	case "vmtuple":
+		n := r.Intn(5)
+		t.Bits = append(t.Bits, c08BitsOf(uint64(n), 16)...)
+		c08GenTupleRefs(r, n, t, depth)
+	case "vmstack":
+		n := r.Intn(5)
+		t.Bits = append(t.Bits, c08BitsOf(uint64(n), 24)...)
+		cur := t
+		for i := 0; i < n; i++ {
+			nx := &c08Tree{}
+			cur.Refs = append(cur.Refs, nx) // rest first, then the value's own refs
+			c08GenVmValue(r, cur, depth+1)
+			cur = nx
+		}
+	case "hm", "hmaug":
+		c08GenMap(r, d, t, d.W, depth)
 	case "addr":
 		switch r.Intn(4) {
 		case 0:
@@ -781,6 +1005,131 @@ func c08GenValid(r *prng.R, d *c08Desc, t *c08Tree, depth int) {
 			t.Bits = append(t.Bits, c08RandBits(r, 32+n)...)
 		}
 	}
+}
+
+func c08GenCellSlice(r *prng.R, t *c08Tree) {
+	cell := c08RandTree(r, 2)
+	cell.Kind = 0
+	t.Refs = append(t.Refs, cell)
+	eb := r.Intn(len(cell.Bits) + 1)
+	sb := r.Intn(eb + 1)
+	er := r.Intn(len(cell.Refs) + 1)
+	sr := r.Intn(er + 1)
+	if r.Chance(10) {
+		eb = len(cell.Bits) + 1
+	}
+	t.Bits = append(t.Bits, c08BitsOf(uint64(sb), 10)...)
+	t.Bits = append(t.Bits, c08BitsOf(uint64(eb&1023), 10)...)
+	t.Bits = append(t.Bits, c08BitsOf(uint64(sr), 3)...)
+	t.Bits = append(t.Bits, c08BitsOf(uint64(er), 3)...)
+}
+
+// vmTupleInner(n, c): the references it walks
+func c08GenTupleRefs(r *prng.R, n int, t *c08Tree, depth int) {
+	if n == 0 {
+		return
+	}
+	val := func() *c08Tree {
+		v := &c08Tree{}
+		c08GenVmValue(r, v, depth+1)
+		return v
+	}
+	m := n - 1
+	if m == 1 {
+		t.Refs = append(t.Refs, val())
+	} else if m > 1 {
+		c1 := &c08Tree{}
+		c08GenTupleRefs(r, m, c1, depth+1)
+		t.Refs = append(t.Refs, c1)
+	}
+	t.Refs = append(t.Refs, val())
+}
+
+func c08GenVmValue(r *prng.R, t *c08Tree, depth int) {
+	k := r.Intn(10)
+	if depth > 3 && k == 9 {
+		k = 0
+	}
+	switch k {
+	case 0:
+		t.Bits = append(t.Bits, c08BitsOf(0, 8)...)
+	case 1, 2:
+		t.Bits = append(t.Bits, c08BitsOf(1, 8)...)
+		t.Bits = append(t.Bits, c08RandBits(r, 64)...)
+	case 3:
+		t.Bits = append(t.Bits, c08BitsOf(0x0200>>1, 15)...)
+		t.Bits = append(t.Bits, c08RandBits(r, 257)...)
+	case 4:
+		t.Bits = append(t.Bits, c08BitsOf(0x02ff, 16)...)
+	case 5:
+		t.Bits = append(t.Bits, c08BitsOf(uint64(r.Pick([]int{3, 5})), 8)...)
+		t.Refs = append(t.Refs, c08RandTree(r, 2))
+	case 6, 7:
+		t.Bits = append(t.Bits, c08BitsOf(4, 8)...)
+		c08GenCellSlice(r, t)
+	case 8:
+		t.Bits = append(t.Bits, c08BitsOf(uint64(r.Pick([]int{6, 8, 2, 255})), 8)...)
+		t.Bits = append(t.Bits, c08RandBits(r, r.Intn(12))...)
+	default:
+		n := r.Intn(5)
+		t.Bits = append(t.Bits, c08BitsOf(7, 8)...)
+		t.Bits = append(t.Bits, c08BitsOf(uint64(n), 16)...)
+		if len(t.Refs)+2 <= 4 {
+			c08GenTupleRefs(r, n, t, depth)
+		}
+	}
+}
+
+func c08LimWidth(m int) int {
+	w := 0
+	for (1 << uint(w)) <= m {
+		w++
+	}
+	return w
+}
+
+// a dictionary node with `left` key bits still to be fixed
+func c08GenMap(r *prng.R, d *c08Desc, t *c08Tree, left int, depth int) {
+	l := left
+	if left > 0 && depth < 4 && r.Chance(45) {
+		l = r.Intn(left)
+	}
+	lbl := c08RandBits(r, l)
+	switch r.Intn(3) {
+	case 0:
+		if l < 40 {
+			t.Bits = append(t.Bits, false)
+			for i := 0; i < l; i++ {
+				t.Bits = append(t.Bits, true)
+			}
+			t.Bits = append(t.Bits, false)
+			t.Bits = append(t.Bits, lbl...)
+			break
+		}
+		fallthrough
+	case 1:
+		t.Bits = append(t.Bits, true, false)
+		t.Bits = append(t.Bits, c08BitsOf(uint64(l), c08LimWidth(left))...)
+		t.Bits = append(t.Bits, lbl...)
+	default:
+		t.Bits = append(t.Bits, true, true, r.Bool())
+		t.Bits = append(t.Bits, c08BitsOf(uint64(l), c08LimWidth(left))...)
+	}
+	if l < left {
+		for i := 0; i < 2; i++ {
+			ch := &c08Tree{}
+			c08GenMap(r, d, ch, left-l-1, depth+1)
+			t.Refs = append(t.Refs, ch)
+		}
+		if d.K == "hmaug" {
+			c08GenValid(r, d.Sub[1], t, depth+1)
+		}
+		return
+	}
+	if d.K == "hmaug" {
+		c08GenValid(r, d.Sub[1], t, depth+1)
+	}
+	c08GenValid(r, d.Sub[0], t, depth+1)
 }
 
 func c08RandTree(r *prng.R, depth int) *c08Tree {
@@ -866,12 +1215,298 @@ func c08MemDelta(f func() error) (class string, alloc uint64) {
 	return class, m1.TotalAlloc - m0.TotalAlloc
 }
 
+// ---- use oracle: a value that a decoder returned without error must not make
+// its own accessors / consumers panic.
+
+type c08UseDest1 struct{ A int64 }
+type c08UseDest2 struct{ A tlb.MsgAddress }
+type c08UseDest3 struct{ A boc.Cell }
+type c08UseDest4 struct {
+	A tlb.Int257
+	B tlb.MsgAddress
+	C boc.Cell
+}
+type c08UseDest5 struct{ A C08Small }
+
+func c08UseDests() []any {
+	return []any{&c08UseDest1{}, &c08UseDest2{}, &c08UseDest3{}, &c08UseDest4{}, &c08UseDest5{}, new(int64), new(tlb.MsgAddress), new(C08Small), new(boc.Cell)}
+}
+
+type c08User struct {
+	first string
+	calls int
+}
+
+func (u *c08User) call(desc string, f func()) {
+	if u.first != "" || u.calls > 400 {
+		return
+	}
+	u.calls++
+	defer func() {
+		if r := recover(); r != nil {
+			msg := fmt.Sprint(r)
+			// type-guarded accessors panic by contract when asked for another variant
+			if strings.Contains(msg, "stack value is not") {
+				return
+			}
+			u.first = desc + ": " + msg
+		}
+	}()
+	f()
+}
+
+var c08ErrorType = reflect.TypeOf((*error)(nil)).Elem()
+
+func c08ObservationClass(use string) string {
+	if strings.Contains(use, "Account.Status") {
+		return "status-on-pruned-account"
+	}
+	if i := strings.Index(use, ":"); i > 0 {
+		use = use[:i]
+	}
+	return strings.NewReplacer("*", "", " ", "", "|", "/").Replace(use)
+}
+
+func (u *c08User) methods(v reflect.Value) {
+	if !v.CanInterface() {
+		return
+	}
+	recv := v
+	if v.CanAddr() {
+		recv = v.Addr()
+	}
+	t := recv.Type()
+	for i := 0; i < t.NumMethod(); i++ {
+		m := t.Method(i)
+		name := m.Name
+		fn := recv.Method(i)
+		ft := fn.Type()
+		full := t.String() + "." + name
+		switch {
+		case strings.HasPrefix(name, "Unmarshal") && ft.NumIn() == 1 && ft.In(0).Kind() == reflect.Interface && name != "UnmarshalTLB" && name != "UnmarshalTL" && name != "UnmarshalJSON":
+			for _, d := range c08UseDests() {
+				d := d
+				// VmStack.Unmarshal documents a pointer to a struct as its destination
+				if strings.HasSuffix(t.String(), "VmStack") && reflect.TypeOf(d).Elem().Kind() != reflect.Struct {
+					continue
+				}
+				u.call(full, func() { fn.Call([]reflect.Value{reflect.ValueOf(d)}) })
+			}
+		case name == "Get" && ft.NumIn() == 1:
+			u.call(full, func() { fn.Call([]reflect.Value{reflect.Zero(ft.In(0))}) })
+		case ft.NumIn() == 0 && !strings.HasPrefix(name, "Put") && !strings.HasPrefix(name, "Set") && !strings.HasPrefix(name, "Reset") && name != "MarshalTL":
+			u.call(full, func() { fn.Call(nil) })
+		}
+	}
+}
+
+func (u *c08User) walk(v reflect.Value, depth int) {
+	if !v.IsValid() || depth > 8 || u.first != "" {
+		return
+	}
+	switch v.Kind() {
+	case reflect.Pointer, reflect.Interface:
+		if v.IsNil() {
+			return
+		}
+		u.walk(v.Elem(), depth+1)
+		return
+	case reflect.Slice:
+		u.methods(v)
+		if v.Type().Elem().Kind() == reflect.Uint8 {
+			return
+		}
+		for i := 0; i < v.Len() && i < 40; i++ {
+			u.walk(v.Index(i), depth+1)
+		}
+		return
+	case reflect.Struct:
+		u.methods(v)
+		t := v.Type()
+		if t == c08CellType {
+			return
+		}
+		name := t.Name()
+		if f := v.FieldByName("SumType"); f.IsValid() && f.Kind() == reflect.String {
+			if a := v.FieldByName(f.String()); a.IsValid() {
+				u.walk(a, depth+1)
+			}
+			return
+		}
+		if strings.HasPrefix(name, "Maybe[") {
+			if v.FieldByName("Exists").Bool() {
+				u.walk(v.FieldByName("Value"), depth+1)
+			}
+			return
+		}
+		if strings.HasPrefix(name, "Either[") {
+			if v.FieldByName("IsRight").Bool() {
+				u.walk(v.FieldByName("Right"), depth+1)
+			} else {
+				u.walk(v.FieldByName("Left"), depth+1)
+			}
+			return
+		}
+		for i := 0; i < v.NumField(); i++ {
+			if t.Field(i).IsExported() {
+				u.walk(v.Field(i), depth+1)
+			}
+		}
+		return
+	default:
+		if v.Type().NumMethod() > 0 || (v.CanAddr() && v.Addr().Type().NumMethod() > 0) {
+			u.methods(v)
+		}
+	}
+}
+
+// ---- soundness of a decoded value: the invariants the decoders are supposed
+// to establish (a violated one makes an accessor panic a property failure; a
+// panic on a sound value is an observation about the accessor's contract)
+
+func c08Peek(f reflect.Value) reflect.Value {
+	if f.CanInterface() || !f.CanAddr() {
+		return f
+	}
+	return reflect.NewAt(f.Type(), unsafe.Pointer(f.UnsafeAddr())).Elem()
+}
+
+type c08Sound struct{ bad string }
+
+func (k *c08Sound) fail(msg string) {
+	if k.bad == "" {
+		k.bad = msg
+	}
+}
+
+func (k *c08Sound) stackValue(v reflect.Value, where string) {
+	if v.FieldByName("SumType").String() == "" {
+		k.fail(where + ": stack value without a constructor")
+	}
+}
+
+func (k *c08Sound) walk(v reflect.Value, depth int) {
+	if !v.IsValid() || depth > 10 || k.bad != "" {
+		return
+	}
+	switch v.Kind() {
+	case reflect.Pointer, reflect.Interface:
+		if !v.IsNil() {
+			k.walk(v.Elem(), depth+1)
+		}
+	case reflect.Slice:
+		if v.Type().Elem().Kind() == reflect.Uint8 {
+			return
+		}
+		for i := 0; i < v.Len() && i < 60; i++ {
+			if v.Type().Elem().Name() == "VmStackValue" {
+				k.stackValue(v.Index(i), "VmStack item")
+			}
+			k.walk(v.Index(i), depth+1)
+		}
+	case reflect.Struct:
+		t := v.Type()
+		name := t.Name()
+		switch {
+		case t == c08CellType:
+			return
+		case name == "VmCellSlice":
+			cell, _ := c08Peek(v.FieldByName("cell")).Interface().(*boc.Cell)
+			sb, eb := c08Peek(v.FieldByName("stBits")).Int(), c08Peek(v.FieldByName("endBits")).Int()
+			sr, er := c08Peek(v.FieldByName("stRef")).Int(), c08Peek(v.FieldByName("endRef")).Int()
+			switch {
+			case cell == nil:
+				k.fail("VmCellSlice without a cell")
+			case sb < 0 || sb > eb || eb > int64(cell.BitSize()):
+				k.fail(fmt.Sprintf("VmCellSlice bit window %d..%d outside a cell of %d bits", sb, eb, cell.BitSize()))
+			case sr < 0 || sr > er || er > int64(cell.RefsSize()):
+				k.fail(fmt.Sprintf("VmCellSlice ref window %d..%d outside a cell of %d refs", sr, er, cell.RefsSize()))
+			}
+			return
+		case name == "VmStkTuple":
+			if v.FieldByName("Len").Uint() > 0 && v.FieldByName("Data").IsNil() {
+				k.fail("VmStkTuple with a length and no data")
+			}
+		case name == "VmTuple":
+			k.stackValue(v.FieldByName("Tail"), "tuple tail")
+		case name == "VmTupleRef":
+			if e := v.FieldByName("Entry"); !e.IsNil() {
+				k.stackValue(e.Elem(), "tuple entry")
+			}
+		case strings.HasPrefix(name, "Hashmap[") || strings.HasPrefix(name, "HashmapAug["):
+			if kf, vf := v.FieldByName("keys"), v.FieldByName("values"); kf.IsValid() && vf.IsValid() && kf.Len() != vf.Len() {
+				k.fail(fmt.Sprintf("%d keys for %d values", kf.Len(), vf.Len()))
+			}
+		}
+		if f := v.FieldByName("SumType"); f.IsValid() && f.Kind() == reflect.String {
+			if a := v.FieldByName(f.String()); a.IsValid() {
+				k.walk(a, depth+1)
+			}
+			return
+		}
+		if strings.HasPrefix(name, "Maybe[") {
+			if v.FieldByName("Exists").Bool() {
+				k.walk(v.FieldByName("Value"), depth+1)
+			}
+			return
+		}
+		if strings.HasPrefix(name, "Either[") {
+			if v.FieldByName("IsRight").Bool() {
+				k.walk(v.FieldByName("Right"), depth+1)
+			} else {
+				k.walk(v.FieldByName("Left"), depth+1)
+			}
+			return
+		}
+		for i := 0; i < v.NumField(); i++ {
+			k.walk(c08Peek(v.Field(i)), depth+1)
+		}
+	}
+}
+
+// c08Unsound returns the first violated invariant of the decoded value, or ""
+func c08Unsound(v reflect.Value) (out string) {
+	defer func() {
+		if r := recover(); r != nil {
+			out = ""
+		}
+	}()
+	k := &c08Sound{}
+	k.walk(v, 0)
+	return k.bad
+}
+
+// c08UseValue exercises the decoded value; "" or "Type.Method: panic message"
+func c08UseValue(v reflect.Value) (out string) {
+	defer func() {
+		if r := recover(); r != nil {
+			out = "harness walk: " + fmt.Sprint(r)
+		}
+	}()
+	// accessors must not be able to write into the protocol stream of the child
+	if null, err := os.OpenFile(os.DevNull, os.O_WRONLY, 0); err == nil {
+		old := os.Stdout
+		os.Stdout = null
+		defer func() { os.Stdout = old; null.Close() }()
+	}
+	u := &c08User{}
+	u.walk(v, 0)
+	u.call("encoding/json.Marshal", func() { _, _ = json.Marshal(v.Interface()) })
+	return u.first
+}
+
 // c08.tlbgo: (type-index tree) -> ('ok|'err alloc), child only
 func execC08TlbGo(in sx.V) sx.V {
 	t := c08TlbTypes[in.List[0].I()]
 	cell := c08TreeOfSx(in.List[1]).cell()
 	v := reflect.New(t)
 	class, a := c08MemDelta(func() error { return tlb.Unmarshal(cell, v.Interface()) })
+	if class == "ok" {
+		unsound := c08Unsound(v)
+		if use := c08UseValue(v); use != "" || unsound != "" {
+			return sx.L(sx.A("usepanic"), sx.N(a), sx.Str(use), sx.Str(unsound))
+		}
+	}
 	return sx.L(sx.A(class), sx.N(a))
 }
 
@@ -916,7 +1551,19 @@ func c08Explore(c *Ctx, kind string, in sx.V, typeName string, weight int, extra
 		c.Fail(kind, in, "tlb-panic-"+typeName, "decoding into "+typeName+" panicked")
 	case strings.Contains(s, "'crash"), strings.Contains(s, "'timeout"):
 		c.Fail(kind, in, "tlb-alloc-"+typeName, "decoding into "+typeName+" exhausted memory or time: "+s)
-	case out.K == sx.KL && len(out.List) == 2:
+	case out.K == sx.KL && len(out.List) == 4 && out.List[0].IsA("usepanic"):
+		use, unsound := string(out.List[2].Bytes), string(out.List[3].Bytes)
+		switch {
+		case unsound != "" && use != "":
+			c.Fail(kind, in, "tlb-use-panic-"+typeName, "decoded without error but unsound ("+unsound+"); its accessor panics: "+use)
+		case unsound != "":
+			c.Fail(kind, in, "tlb-unsound-"+typeName, "decoded without error but unsound: "+unsound)
+		default:
+			// the value is sound (e.g. the zero value left by a skipped pruned branch):
+			// what the accessor does with it is an API contract, counted as an observation
+			c.Note(kind, "observation:"+c08ObservationClass(use), in)
+		}
+	case out.K == sx.KL && len(out.List) == 2 && out.List[1].K == sx.KN:
 		a := out.List[1].U64()
 		if ratio := float64(a) / float64(weight); ratio > c08Calib[typeName] {
 			c08Calib[typeName] = ratio
@@ -992,6 +1639,22 @@ func c08TypeIndex(name string) int {
 }
 
 // length / count / depth prefixes at their maximum with a short remainder
+// a directed input: compared with the model when the type is described,
+// always under the allocation oracle
+func c08DirectedCase(c *Ctx, ti int, tree *c08Tree) {
+	if ti < 0 || !tree.fits() {
+		return
+	}
+	if d := c08Derive(c08TlbTypes[ti], ""); d != nil {
+		in := sx.L(sx.B(!d.hasAny()), d.sx(), tree.sx())
+		out := c.EmitGuarded("c08.tlb", in, c08ShortName(c08TlbTypes[ti])+"|malformed")
+		if o := out.String(); strings.Contains(o, "'panic") || strings.Contains(o, "'crash") || strings.Contains(o, "'timeout") {
+			c.Fail("c08.tlb", in, "tlb-panic", "tlb.Unmarshal panicked / crashed: "+o)
+		}
+	}
+	c08ExploreTlb(c, ti, tree)
+}
+
 func genC08Directed(c *Ctx) {
 	r := c.R.Fork(7000)
 	null := c08BitsOf(0, 8)                               // vm_stk_null#00
@@ -1001,7 +1664,7 @@ func genC08Directed(c *Ctx) {
 		for chain := 0; chain <= 4; chain++ {
 			for _, item := range [][]bool{null, tiny, nil} {
 				t := c08Chain(c08BitsOf(depth, 24), item, chain)
-				c08ExploreTlb(c, vs, t)
+				c08DirectedCase(c, vs, t)
 				c08ExploreVmTl(c, t)
 			}
 		}
@@ -1009,7 +1672,7 @@ func genC08Directed(c *Ctx) {
 	// honest stacks of growing length (the per-level copy is quadratic in the length)
 	for _, n := range []int{1, 2, 8, 32, 128, c.Scale(256, 1000)} {
 		t := c08Chain(c08BitsOf(uint64(n), 24), tiny, n)
-		c08ExploreTlb(c, vs, t)
+		c08DirectedCase(c, vs, t)
 		c08ExploreVmTl(c, t)
 	}
 	// tuples: vm_stk_tuple#07 len:(## 16) with few or no refs
@@ -1019,7 +1682,37 @@ func genC08Directed(c *Ctx) {
 			for i := 0; i < refs; i++ {
 				t.Refs = append(t.Refs, &c08Tree{Bits: null})
 			}
-			c08ExploreTlb(c, vv, t)
+			c08DirectedCase(c, vv, t)
+		}
+	}
+	// cell slices: st/end bits and refs around the real size of the cell, all orders
+	cs := c08TypeIndex("VmCellSlice")
+	for _, nb := range []int{0, 10} {
+		for _, nr := range []int{0, 2} {
+			cell := &c08Tree{Bits: c08RandBits(r, nb)}
+			for i := 0; i < nr; i++ {
+				cell.Refs = append(cell.Refs, &c08Tree{Bits: null})
+			}
+			around := func(x int) []int { return []int{0, x - 1, x, x + 1} }
+			for _, sb := range around(nb) {
+				for _, eb := range around(nb) {
+					for _, sr := range around(nr) {
+						for _, er := range around(nr) {
+							if sb < 0 || eb < 0 || sr < 0 || er < 0 {
+								continue
+							}
+							bits := append(c08BitsOf(uint64(sb), 10), c08BitsOf(uint64(eb), 10)...)
+							bits = append(bits, c08BitsOf(uint64(sr), 3)...)
+							bits = append(bits, c08BitsOf(uint64(er), 3)...)
+							c08DirectedCase(c, cs, &c08Tree{Bits: bits, Refs: []*c08Tree{cell.clone()}})
+							val := &c08Tree{Bits: append(c08BitsOf(4, 8), bits...), Refs: []*c08Tree{cell.clone()}}
+							c08DirectedCase(c, vv, val)
+							st := &c08Tree{Bits: append(c08BitsOf(1, 24), val.Bits...), Refs: []*c08Tree{{}, cell.clone()}}
+							c08DirectedCase(c, vs, st)
+						}
+					}
+				}
+			}
 		}
 	}
 	// hashmaps: labels announcing more bits than the cell holds
@@ -1067,7 +1760,7 @@ func genC08Directed(c *Ctx) {
 				if hm.e {
 					t = &c08Tree{Bits: []bool{true}, Refs: []*c08Tree{node}}
 				}
-				c08ExploreTlb(c, ti, t)
+				c08DirectedCase(c, ti, t)
 			}
 		}
 	}
@@ -1082,7 +1775,7 @@ func genC08Directed(c *Ctx) {
 				for chain := 0; chain <= 3; chain += 3 {
 					t := c08Chain(pre, c08RandBits(r, have/2), chain)
 					t.Bits = append(append([]bool{}, pre...), c08RandBits(r, have)...)
-					c08ExploreTlb(c, ti, t)
+					c08DirectedCase(c, ti, t)
 				}
 			}
 		}
@@ -1093,9 +1786,20 @@ func genC08TLB(c *Ctx) {
 	for ti, t := range c08TlbTypes {
 		r := c.R.Fork(uint64(5000 + ti))
 		d := c08Derive(t, "")
+		loop := d != nil && d.hasLoop()
 		run := func(tree *c08Tree, class string) {
 			if !tree.fits() {
 				return
+			}
+			// coverage class: type x {valid, exotic, malformed}
+			if i := strings.LastIndex(class, "|"); i >= 0 {
+				switch fam := class[i+1:]; {
+				case fam == "valid":
+				case strings.HasPrefix(fam, "exotic"):
+					class = class[:i] + "|exotic"
+				default:
+					class = class[:i] + "|malformed"
+				}
 			}
 			if d == nil {
 				// hand-written decoder: exploration support only, in the guarded child
@@ -1106,9 +1810,17 @@ func genC08TLB(c *Ctx) {
 				return
 			}
 			in := sx.L(sx.B(!d.hasAny()), d.sx(), tree.sx())
-			out := c.Emit("c08.tlb", in, class)
-			if strings.Contains(out.String(), "'panic") {
-				c.Fail("c08.tlb", in, "tlb-panic", "tlb.Unmarshal panicked")
+			var out sx.V
+			if loop {
+				// the decoder follows the data: run it in the guarded child and
+				// put the allocation oracle on it as well
+				out = c.EmitGuarded("c08.tlb", in, class)
+				c08ExploreTlb(c, ti, tree)
+			} else {
+				out = c.Emit("c08.tlb", in, class)
+			}
+			if o := out.String(); strings.Contains(o, "'panic") || strings.Contains(o, "'crash") || strings.Contains(o, "'timeout") {
+				c.Fail("c08.tlb", in, "tlb-panic", "tlb.Unmarshal panicked / crashed: "+o)
 			}
 		}
 		name := c08ShortName(t)
@@ -1207,6 +1919,21 @@ func execC08Answer(in sx.V) sx.V {
 		return sx.A("err")
 	}
 	return sx.L(sx.A("ok"), sx.Bytes(d))
+}
+
+// the same answer twice for a query registered once: the reader must not hang
+func execC08Answer2(in sx.V) sx.V {
+	errs, hung := liteclient.VerifProcessQueryAnswerRepeat(append([]byte{}, in.Bytes...), 2, 2*time.Second)
+	if hung {
+		return sx.A("hang")
+	}
+	cl := func(e bool) sx.V {
+		if e {
+			return sx.A("err")
+		}
+		return sx.A("ok")
+	}
+	return sx.L(cl(errs[0]), cl(errs[1]))
 }
 
 type c08Identity struct{}
@@ -1346,6 +2073,12 @@ func genC08Framing(c *Ctx) {
 		}
 		in := sx.L(sx.B(r.Chance(85)), sx.Bytes(p))
 		fail("c08.answer", in, c.Emit("c08.answer", in, "answer|"+strconv.Itoa(min(len(p)/16, 4))))
+		if k%5 == 0 {
+			in2 := sx.Bytes(p)
+			if out := c.Emit("c08.answer2", in2, "answer2|"+strconv.Itoa(min(len(p)/16, 4))); out.IsA("hang") {
+				c.Fail("c08.answer2", in2, "answer-repeat-hang", "a repeated answer for the same query id blocks the reader")
+			}
+		}
 	}
 	// ParsePacket: valid packets, mutated sizes, truncations
 	for k := 0; k < c.Scale(40, 300); k++ {
